@@ -13,6 +13,7 @@ RULE = ('file names over printable ASCII without backslash and slash: every sing
         'position, all pairs of special characters (thorough) or a seeded sample of pairs (quick), plus random names; a name is '
         'non-trivial when it contains a character outside [A-Za-z0-9_.]; distinct by exact text')
 TRUSTED = ('R model Make/MakeNames.v (rule-header word reading) validated against /usr/bin/make on this run',
+           'R model Make/MakeHeader.v (splitting of a whole rule header, patsubst %/.dir,%) validated against /usr/bin/make on this run',
            'the representable set is established at run time with a hand-written reference escaping (reference_escape) run by the real make',
            'Ninja reader model is trusted (no ninja binary)')
 
@@ -263,39 +264,269 @@ def stage_ninja(rep, rng, names):
 
 
 def stage_system_names(rep, rng, thorough):
-    """Real configure + make on projects whose source / directory / output names carry special characters:
-    the object is created at exactly that path, a second build is a no-op, touching the source rebuilds, clean removes."""
+    """Real configure + make on projects whose source / directory / output names carry special characters, with the
+    special character in the file name and in a directory component at depth 1 AND at depth 2 (d?r/ma?in.c and
+    d?r/e?f/ma?in.c in one target): every object is created at exactly that path, nothing else appears in the build
+    directory (no stray directories from a name split into words), a second build is a no-op. The blank (the most common
+    special character), # and $ are part of every run; the other characters are sampled in the quick tier."""
     from . import project
     bad = 0
-    specials = [' ', '#', '$', '&', '(', ')', ',', '@', '!', '+', '~', '{', '}', '=', '"', '^', ':', ';']
-    picks = specials if thorough else rng.sample(specials, 5) + [',']
+    always = [' ', '#', '$', ',']
+    others = ['&', '(', ')', '@', '!', '+', '~', '{', '}', '=', '"', '^', ':', ';']
+    picks = always + (others if thorough else rng.sample(others, 3))
     for c in picks:
         stem = 'ma' + c + 'in'
+        d1, d2 = 'd' + c + 'r', 'e' + c + 'f'
+        srcs = [d1 + '/' + stem + '.c', d1 + '/' + d2 + '/' + stem + '.c']
         with project.Scratch('c04s') as s:
-            project.write_tree(s.src, {'build.bfg': "project('p')\nexecutable('prog', files=[%r])\n" % ('d' + c + 'r/' + stem + '.c'),
-                                       'd' + c + 'r/' + stem + '.c': 'int main(void){return 0;}\n'})
+            tree = {'build.bfg': "project('p')\nexecutable('prog', files=%r)\n" % (srcs,)}
+            tree[srcs[0]] = 'int main(void){return 0;}\n'
+            tree[srcs[1]] = 'int f(void){return 0;}\n'
+            project.write_tree(s.src, tree)
             rc, out = project.configure(s.src, s.build, 'make')
             if rc != 0:
                 rep.count('system:configure_rejects')
                 continue
+            before = set(project.snapshot(s.build))
             rcm, recs, mout = project.make(s.build, ['all'], stub_tools=True)
-            obj = os.path.join(s.build, 'prog.int', 'd' + c + 'r', stem + '.o')
-            ok = rcm == 0 and os.path.exists(obj) and any(r['argv'] and ('prog.int/d' + c + 'r/' + stem + '.o') in r['argv'] and '-o' in r['argv'] and r['argv'][-1] == 'prog' for r in recs)
+            objs = ['prog.int/' + x[:-2] + '.o' for x in srcs]
+            dirs = ['prog.int', 'prog.int/' + d1, 'prog.int/' + d1 + '/' + d2]
+            allowed = set(['prog'] + dirs + [d + '/.dir' for d in dirs] + objs + [o + '.d' for o in objs])
+            after = set(project.snapshot(s.build))
+            stray = sorted(x for x in after - before if x not in allowed and not x.startswith('.'))
+            missing = [o for o in objs if not os.path.exists(os.path.join(s.build, o))]
+            linked = any(r['argv'] and all(o in r['argv'] for o in objs) and '-o' in r['argv'] and r['argv'][-1] == 'prog' for r in recs)
+            ok = rcm == 0 and not missing and not stray and linked
             rcm2, recs2, _ = project.make(s.build, ['all'], stub_tools=True) if ok else (1, [], '')
             ok = ok and rcm2 == 0 and not recs2
             rep.case('sys:' + c, True)
-            # in scope only when an accepted escaping exists for both the directory and the file name
-            if not ok and reference_ok('d' + c + 'r')[0] and reference_ok(stem + '.o')[0]:
+            rep.count('system:char %r' % c)
+            # in scope only when an accepted escaping exists for the directory and the file name
+            if not ok and reference_ok(d1)[0] and reference_ok(stem + '.o')[0]:
                 cls = list(classify(stem, 'make'))
                 if c == ',':
                     cls.append('make-call-comma')
                 if c in '()':
                     cls.append('make-call-paren')
-                if rep.fail('Make: project with source %r does not build / rebuilds: %s' % ('d' + c + 'r/' + stem + '.c', mout[-200:]),
-                            {'char': c, 'make_output': mout[-800:], 'object_exists': os.path.exists(obj)}, classes=tuple(cls)):
+                if rep.fail('Make: project with sources %r does not build exactly its outputs (missing %r, stray %r, linked %r): %s'
+                            % (srcs, missing, stray, linked, mout[-200:]),
+                            {'char': c, 'sources': srcs, 'make_output': mout[-800:], 'missing_objects': missing, 'stray_entries': stray,
+                             'link_step_has_all_objects': linked}, classes=tuple(cls)):
                     bad += 1
     rep.stage('system names', chars=len(picks), failures=bad)
     return bad
+
+
+def stage_call_names(rep, rng, names):
+    """The name as an argument of $(call RULE,...) (link inputs, multi-output parameters): the real Makefile writer
+    (define + Call), the real make, the recorder. The guard of C01_call_arg (no comma outside parentheses, balanced
+    parentheses) separates the proved domain from the two open findings; the witnesses of C01_call_arg_comma_refuted /
+    C01_call_arg_paren_refuted are replayed first."""
+    from . import c01
+    from bfg9000.path import Path
+    bad = 0
+    for n in ['ma,in.o', 'o(ne.o', 'o)ne.o', 'f(a,b).o'] + list(names):
+        try:
+            if Path(n).suffix != n:
+                continue
+            p = Path(n)
+        except ValueError:
+            continue
+        got, text, out = c01.run_call_channel([p], ['out'])
+        if got is not None and len(got) == 2 and len(got[0]) == 4 and got[0][1] == './' + n:
+            got[0][1] = n              # a bare file name in a command is written as ./name: the same file
+        rep.case('call:' + n, True)
+        rep.count('call:guard_ok' if c01.call_word_ok(n) else 'call:outside_guard')
+        if got != [['L1', n, '--', 'out'], ['L2', 'all', 'out']]:
+            cls = list(classify(n, 'make'))
+            if not c01.call_word_ok(n):
+                depth, top_comma, unbalanced = 0, False, False
+                for c in n:
+                    if c == ',' and depth == 0:
+                        top_comma = True
+                    depth += (c == '(') - (c == ')')
+                    if depth < 0:
+                        unbalanced = True
+                        break
+                if top_comma:
+                    cls.append('make-call-comma')
+                if unbalanced or depth != 0:
+                    cls.append('make-call-paren')
+            if rep.fail('Make: name %r passed through $(call RULE,...) is delivered as %r' % (n, got),
+                        {'name': n, 'delivered': got, 'makefile': text, 'out': out[-300:]}, classes=tuple(cls)):
+                bad += 1
+    rep.stage('make call names', names=len(names) + 4, failures=bad)
+    return bad
+
+
+def stage_w_rule(rep, rng, names, n):
+    """W tie of whole rules: Makefile._write_rule against MakeHeader.write_rule (target-specific variables, .PHONY,
+    header, the three recipe forms) and, for plain names, against the pure header_text the theorem C04_make_rule_rt is
+    about; directory sentinels (directory_deps) and the patsubst call of directory_rule."""
+    from bfg9000.backends.make.syntax import Makefile, Rule, Variable, Function, Pattern, Silent, Syntax, var
+    from bfg9000.backends.make.writer import directory_deps, dir_sentinel
+    from bfg9000.path import Path
+    from . import c01
+    uw, us = gen.uni_tables()
+    calls, impl = [], []
+    mk = Makefile('build.bfg')
+    pool = [x for x in names if '\n' not in x] + ['a$b', '$', 'x y', '~t', 'p|q', 'a:b']
+
+    def pick(k):
+        return [rng.choice(pool) for _ in range(k)]
+    for i in range(n):
+        ts, ds, os_ = pick(rng.randint(1, 3)), pick(rng.choice([0, 1, 2, 3])), pick(rng.choice([0, 0, 1, 2]))
+        w = mk.writer(StringIO())
+        mk._write_rule(w, Rule(ts, ds, os_, None, {}, False))
+        text = w.stream.getvalue()
+        assert text.endswith('\n\n')
+        calls.append(('make.header_text', [us, ts, ds, os_])); impl.append(text[:-2])
+        rep.case('hdr:%r' % ((ts, ds, os_),), True)
+        # the general rule
+        tv_enc, tv_py = [], {}
+        for _ in range(rng.choice([0, 0, 1, 2])):
+            nm = rng.choice(['CFLAGS', 'LD FLAGS', 'x'])
+            if var(nm) in tv_py:
+                continue
+            ws = [gen.arg_string(rng, None, maxlen=6) for _ in range(rng.randint(1, 3))]
+            tv_enc.append([nm, [[[2, x]] for x in ws]]); tv_py[var(nm)] = ws
+        phony = rng.random() < 0.4
+        k = rng.random()
+        if k < 0.3:
+            r_enc, r_py = [], None
+        elif k < 0.5:
+            v = var(rng.choice(['X', 'RULE', '@']))
+            r_enc, r_py = [0, [[[0, v.use().string]]]], v
+        else:
+            ls_enc, ls_py = [], []
+            for _ in range(rng.randint(0, 3)):
+                ws = [gen.arg_string(rng, None, maxlen=6) for _ in range(rng.randint(1, 3))]
+                sil = rng.random() < 0.4
+                ls_enc.append([sil, [[[2, x]] for x in ws]]); ls_py.append(Silent(ws) if sil else ws)
+            r_enc, r_py = [1, ls_enc], ls_py
+        w = mk.writer(StringIO())
+        try:
+            mk._write_rule(w, Rule(ts, ds, os_, r_py, tv_py, phony))
+            iv = w.stream.getvalue()
+        except ValueError:
+            iv = None
+        enc_names = lambda l: [[[2, x]] for x in l]
+        calls.append(('make.write_rule', [uw, us, tv_enc, phony, enc_names(ts), enc_names(ds), enc_names(os_), r_enc])); impl.append(iv)
+    # directory sentinels
+    for nme in pool:
+        for depth in (1, 2):
+            try:
+                comps = [nme] * depth + ['out.o']
+                pth = Path('/'.join(comps))
+                if pth.suffix != '/'.join(comps):
+                    continue
+                sent = directory_deps([pth])
+            except ValueError:
+                continue
+            if len(sent) != 1:
+                continue
+            calls.append(('make.sentinel_of', [pth.parent().suffix])); impl.append(sent[0].suffix)
+    w = mk.writer(StringIO())
+    import os as _os
+    esc = w.write(Function('patsubst', Pattern(_os.path.join('%', dir_sentinel)), Pattern('%'), var('@'), quoted=True), Syntax.shell)
+    calls.append(('make.function', [uw, us, 'patsubst', [[[[0, '%'], [2, '/.dir']]], [[[0, '%']]], [[[0, '$@']]]], True, c01.SYN['shell']]))
+    impl.append((w.stream.getvalue(), bool(esc)))
+
+    def dec(name, r):
+        if name in ('make.header_text', 'make.sentinel_of'):
+            return d_str(r)
+        if name == 'make.function':
+            return d_opt(lambda x: (d_str(x[0]), d_bool(x[1])), r)
+        return d_opt(d_str, r)
+    return common.compare_model(rep, 'W:_write_rule/header_text/directory sentinel', calls, impl, dec)
+
+
+def stage_r_header(rep, rng, names, n):
+    """R validation of MakeHeader.parse_rule_header and patsubst_dir_text against /usr/bin/make: headers of names inside the
+    guard of C04_make_rule_rt are written with header_text, every target logs its own name and the number of words of its
+    prerequisite / order-only lists, every prerequisite logs its own name."""
+    _, us = gen.uni_tables()
+    ok = [x for x, r in zip(names, common.model_batch([('make.name_ok', [us, x]) for x in names])) if d_bool(r[0]) and d_bool(r[1])]
+    ok = [x for x in ok if '$' not in x]
+    bad = done = 0
+    for _ in range(n):
+        pickn = rng.sample(ok, min(len(ok), 6))
+        ts, rest = pickn[:rng.randint(1, 2)], pickn[2:]
+        ds = rest[:rng.randint(0, 2)]
+        os_ = [x for x in rest[2:2 + rng.choice([0, 1, 2])] if '|' not in x]      # a bar in an order-only name: C04_make_rule_oo_bar_refuted
+        raw = common.model_batch([('make.header_text', [us, ts, ds, os_]), ('make.header_text', [us, ['all'], ts, []])] +
+                                 [('make.header_text', [us, [x], [], []]) for x in ds + os_])
+        hdr, all_hdr, pre = d_str(raw[0]), d_str(raw[1]), [d_str(x) for x in raw[2:]]
+        mp = common.model_batch([('make.parse_rule_header', [hdr])])[0]
+        mv = d_opt(lambda x: (d_list(d_str, x[0]), d_list(d_str, x[1]), d_list(d_str, x[2])), mp)
+        d = common.scratch('c04h')
+        try:
+            log = os.path.join(d, 'LOG')
+            mk = all_hdr + '\n' + hdr + '\n\t@$(file >>%s,T <$@> $(words $^) $(words $|))\n' % log
+            mk += ''.join(h + '\n\t@$(file >>%s,P <$@>)\n' % log for h in pre)
+            with open(os.path.join(d, 'Makefile'), 'w') as f:
+                f.write(mk)
+            p = subprocess.run(['make', '--no-print-directory'], cwd=d, env={'PATH': '/usr/bin:/bin', 'LC_ALL': 'C.UTF-8'},
+                               capture_output=True, timeout=20)
+            lines = open(log, encoding='utf-8', errors='replace').read().split('\n') if os.path.exists(log) else []
+        finally:
+            shutil.rmtree(d, ignore_errors=True)
+        nw = lambda l: sum(len(x.split()) for x in l)
+        want = sorted(['T <%s> %d %d' % (t, nw(ds), nw(os_)) for t in ts] + ['P <%s>' % x for x in ds + os_])
+        got = sorted(x for x in lines if x)
+        done += 1
+        rep.case('rh:' + hdr, True)
+        if mv != (ts, ds, os_) or p.returncode != 0 or got != want:
+            bad += 1
+            rep.fail('R:make_rule_header - header %r: declared %r, model parse %r, make rc %d log %r' % (hdr, (ts, ds, os_), mv, p.returncode, got),
+                     {'obligation': 'R:make_rule_header', 'header': hdr, 'declared': [ts, ds, os_], 'model': mv, 'make_log': got,
+                      'out': (p.stdout + p.stderr).decode('utf-8', 'replace')[-300:]}, found_input=False)
+    # hand-written headers, in particular the bar after the order-only separator: the expected log is computed from the
+    # model's parse, the prerequisites get rules written with the reference escaping
+    for hdr in ['t: | x\\|y', 't: a\\|b | c', 't: a\\|b c\\ d | e\\|f g', 't u: d', 't:', 't: |', 't: a\\:b | c\\#d']:
+        mv = d_opt(lambda x: (d_list(d_str, x[0]), d_list(d_str, x[1]), d_list(d_str, x[2])),
+                   common.model_batch([('make.parse_rule_header', [hdr])])[0])
+        if mv is None:
+            continue
+        ts, ds, os_ = mv
+        d = common.scratch('c04h')
+        try:
+            log = os.path.join(d, 'LOG')
+            mk = 'all: ' + ' '.join(reference_escape(t, 'dep') for t in ts) + '\n' + hdr + '\n\t@$(file >>%s,T <$@> $(words $^) $(words $|))\n' % log
+            mk += ''.join(reference_escape(x, 'target') + ':\n\t@$(file >>%s,P <$@>)\n' % log for x in ds + os_)
+            with open(os.path.join(d, 'Makefile'), 'w') as f:
+                f.write(mk)
+            p = subprocess.run(['make', '--no-print-directory'], cwd=d, env={'PATH': '/usr/bin:/bin', 'LC_ALL': 'C.UTF-8'},
+                               capture_output=True, timeout=20)
+            lines = open(log, encoding='utf-8', errors='replace').read().split('\n') if os.path.exists(log) else []
+        finally:
+            shutil.rmtree(d, ignore_errors=True)
+        nw = lambda l: sum(len(x.split()) for x in l)
+        want = sorted(['T <%s> %d %d' % (t, nw(ds), nw(os_)) for t in ts] + ['P <%s>' % x for x in ds + os_])
+        got = sorted(x for x in lines if x)
+        done += 1
+        rep.case('rh:' + hdr, True)
+        if p.returncode != 0 or got != want:
+            bad += 1
+            rep.fail('R:make_rule_header - header %r: model parse %r, make rc %d log %r' % (hdr, mv, p.returncode, got),
+                     {'obligation': 'R:make_rule_header', 'header': hdr, 'model': mv, 'make_log': got,
+                      'out': (p.stdout + p.stderr).decode('utf-8', 'replace')[-300:]}, found_input=False)
+    # patsubst on sentinels
+    cases = [x + '/.dir' for x in ['a', 'a b', 'a  b', 'prog.int/d r/e f', 'x/.dir y', '.dir', 'a/.dirx', 'a/.dir/.dir']] + \
+            [x + '/.dir' for x in rng.sample(ok, min(len(ok), 12))]
+    cases = [x for x in cases if not any(ch in x for ch in '$#\t') and not x.startswith(('-', ' ')) and not x.endswith(' ')]
+    raw = common.model_batch([('make.patsubst_dir', [x]) for x in cases])
+    for x, r in zip(cases, raw):
+        mv = d_str(r)
+        rc, _, out = shtools.make_run('X := $(patsubst %%/.dir,%%,%s)\n$(info [$(X)])\nall:;@:\n' % x.replace('%', '%%') if False else
+                                      'override W := %s\n$(info [$(patsubst %%/.dir,%%,$(W))])\nall:;@:\n' % x)
+        rv = out[1:out.rindex(']')] if rc == 0 and out.startswith('[') else None
+        rep.case('ps:' + x, True)
+        if rv != mv:
+            bad += 1
+            rep.fail('R:make_patsubst - patsubst %%/.dir,%% on %r: model %r, make %r' % (x, mv, rv),
+                     {'obligation': 'R:make_patsubst', 'word': x, 'model': mv, 'make': rv}, found_input=False)
+    rep.stage('R:rule header / patsubst', headers=done, patsubst=len(cases), disagreements=bad)
 
 
 def run(rep):
@@ -306,8 +537,11 @@ def run(rep):
     for n in names[:5]:
         rep.sample({'name': n})
     dis = stage_w(rep, rng, names)
+    dis += stage_w_rule(rep, rng, names, 400 if thorough else 120)
+    stage_r_header(rep, rng, names, 150 if thorough else 30)
     found = stage_make(rep, rng, names)
     found += stage_make_recipe_names(rep, rng, names if thorough else names[::3])
+    found += stage_call_names(rep, rng, names if thorough else names[1::3])
     found += stage_ninja(rep, rng, names)
     found += stage_system_names(rep, rng, thorough)
     if dis and not found:
